@@ -117,7 +117,7 @@ struct Case
 
 inline std::string env_name(std::size_t i)
 {
-    return "NITRO_VERIF_E" + std::to_string(i);
+    return "NITRO_VERIF_Ev" + std::to_string(i); // (a lower-case letter: variable names are case-sensitive)
 }
 
 // two entries may be bound to the same variable: index of the entry that owns the variable
